@@ -506,6 +506,12 @@ class HistoryRun:
             hung_before = self.w.timeouts_seen.get(step["bp"], 0)
         if hung_before and "timeout" not in step:
             timeout = max(60.0, DEFAULT_TIMEOUT / 5)
+        # blueprints on which a pavexc is known (or was once known) not to terminate while its memory
+        # grows without bound carry their own, much shorter limit in corpus.json (a healthy run takes
+        # 2-3 s): the machine has no swap, sixteen of those running for ten minutes would exhaust it
+        bp_limit = self.w.corpus["blueprints"].get(step.get("bp"), {}).get("max_wall_s")
+        if bp_limit:
+            timeout = min(timeout, float(bp_limit))
         out_p = os.path.join(self.slot.dir, f"out-{self.seq}.txt")
         err_p = os.path.join(self.slot.dir, f"err-{self.seq}.txt")
         t0 = time.time()
